@@ -1635,12 +1635,9 @@ impl AggregationState {
                     if old_idx >= self.key_order.len() {
                         continue;
                     }
-                    // Check if this slot has data
-                    let has_data = !self.key_order[old_idx]
-                        .values
-                        .iter()
-                        .all(|v| matches!(v, ScalarValue::Null));
-                    if !has_data {
+                    // Check if this slot has data (a group whose key is NULL
+                    // in every column looks like a free slot by key alone)
+                    if !Self::slot_has_data(&self.key_order[old_idx], &self.perfect_accs[old_idx]) {
                         continue;
                     }
 
@@ -2705,11 +2702,7 @@ impl AggregationState {
                     if old_idx >= self.key_order.len() {
                         continue;
                     }
-                    let has_data = !self.key_order[old_idx]
-                        .values
-                        .iter()
-                        .all(|v| matches!(v, ScalarValue::Null));
-                    if !has_data {
+                    if !Self::slot_has_data(&self.key_order[old_idx], &self.perfect_accs[old_idx]) {
                         continue;
                     }
 
